@@ -205,7 +205,7 @@ End Eval.
    the edges leaving one source variable get buffers only if their largest delay exceeds step_size
    (add_delay = max_delay > self.step_size); then every edge gets  <var>_buffered = past(var, d)  — except that
    line 663 writes the undelayed variable when `type(d) is float or d != 1` fails, which it does for the
-   numpy float 1.0 (finding C10-F3).  Delays not above the (initial) step size are dropped (finding C10-F4). *)
+   0-d numpy array 1.0 that arrives there (finding C10-F3).  Delays not above the (initial) step size are dropped (finding C10-F4). *)
 Definition edge := (nat * nat * nat * Qc)%type.      (* source state variable, target equation, weight parameter, delay *)
 Definition e_src (e : edge) : nat := fst (fst (fst e)).
 Definition e_delay (e : edge) : Qc := snd e.
